@@ -210,7 +210,9 @@ func (c *Characteristic) convert(v interface{}) interface{} {
 	case FormatUInt32:
 		return int(to.Uint64(v))
 	case FormatInt32:
-		return int(to.Uint64(v))
+		// Signed: the conversion of a negative float64 (a number sent by a controller)
+		// to an unsigned integer is not the same on every platform
+		return int(to.Int64(v))
 	case FormatUInt64:
 		return int(to.Uint64(v))
 	case FormatBool:
